@@ -42,6 +42,7 @@ def run_shard(args):
 
     # anchors must be resolved before setup() wraps them (the wrappers keep the original in __pfv_orig__ anyway)
     reach_on = reach.start(getattr(mod, "ANCHORS", []))
+    funcs_on = reach.start_functions(os.path.join(boot.REPO, "pfhedge"))
     if hasattr(mod, "setup"):
         mod.setup(ctx)
     deadline = time.time() + args.budget
@@ -58,6 +59,7 @@ def run_shard(args):
         mod.teardown(ctx)
     out = ctx.dump()
     out["reach"] = reach.report() if reach_on else {}
+    out["functions"] = reach.functions_report() if funcs_on else []
     out["tree"] = boot.tree_identity()
     out["meta"] = {
         "rule": getattr(mod, "RULE", ""),
@@ -83,8 +85,10 @@ def merge(dumps):
         "branches": {},
         "extra": {},
         "reach": {},
+        "functions": set(),
     }
     for d in dumps:
+        m["functions"].update(d.get("functions") or [])
         for spec, r in (d.get("reach") or {}).items():
             cur = m["reach"].get(spec)
             if cur is None:
@@ -284,6 +288,7 @@ def main():
                 "reach": {k_: {"lines_executable": v_["lines_executable"], "lines_never_reached": sorted(v_["missed"]),
                                "lines_reached": v_["lines_executable"] - len(v_["missed"]) if not v_["truncated"] else None}
                           for k_, v_ in m["reach"].items()},
+                "library_functions_entered": sorted(m["functions"]),
                 "extra": m["extra"],
                 "drivers_cases": meta["drivers"],
                 "shards": nsh,
